@@ -115,7 +115,8 @@ class Check:
 
     # -- finishing ---------------------------------------------------------
     def write_replay(self, v, n):
-        d = os.path.join(VERIF, "replays")
+        d = os.path.join(VERIF, "replays") if REPO == "/repo" else \
+            os.path.join("/tmp", "verif-replays-scratch")
         os.makedirs(d, exist_ok=True)
         h = hashlib.sha1(v["signature"].encode()).hexdigest()[:10]
         p = os.path.join(d, f"{self.pid}-{h}.json")
@@ -164,8 +165,12 @@ class Check:
                   level=self.level, coverage=cov,
                   assumptions=self.assumptions, wall_s=round(wall, 2),
                   violations=len(self.violations))
-        os.makedirs(os.path.join(VERIF, "evidence"), exist_ok=True)
-        with open(os.path.join(VERIF, "evidence", f"{self.pid}.json"), "w") as f:
+        # runs against a scratch tree (VERIF_REPO) never touch the evidence
+        # of /repo
+        evdir = os.path.join(VERIF, "evidence") if REPO == "/repo" else \
+            os.path.join("/tmp", "verif-evidence-scratch")
+        os.makedirs(evdir, exist_ok=True)
+        with open(os.path.join(evdir, f"{self.pid}.json"), "w") as f:
             json.dump(ev, f, indent=1, default=str)
 
         print(f"[{self.pid}] tier={self.tier} obligations={self.obligations} "
